@@ -13,12 +13,12 @@ NAMES = ['f', 'g', 'sub']
 OFLAGS = {0: '0', 1: 'CREAT', 5: 'CREAT|EXCL', 8: 'TRUNC', 9: 'CREAT|TRUNC', 2: 'DIRECTORY', 10: 'DIRECTORY|TRUNC', 3: 'DIRECTORY|CREAT'}   # oflags bits: creat 1, directory 2, excl 4, trunc 8
 FDFLAGS = {0: '0', 1: 'APPEND', 16: 'SYNC'}
 RIGHTS = {1: 'R', 2: 'W', 3: 'RW'}
-SHAPES = {0: '[]', 1: '[3]', 2: '[0]', 3: '[2,0,3]', 4: '[1,1,1]', 5: '[2,3@end-of-memory]'}
+SHAPES = {0: '[]', 1: '[3]', 2: '[0]', 3: '[2,0,3]', 4: '[1,1,1]', 5: '[2,3@end-of-memory]', 6: '[3] result cell on the iovec length field', 7: '[3] result cell on the data buffer'}
 OFFSETS = [0, 2, 7, 2 ** 31, 2 ** 32 + 3]
 SEEKS = [0, 3, -2, 2 ** 32 + 1]
 WHENCES = [0, 1, 2, 3]
 NSNAME = {0: 'wasi_snapshot_preview1', 1: 'wasi_unstable'}
-OPNAME = {'o': 'path_open', 'w': 'fd_write', 'W': 'fd_pwrite', 'r': 'fd_read', 'R': 'fd_pread', 's': 'fd_seek', 't': 'fd_tell',
+OPNAME = {'u': 'path_unlink_file', 'n': 'path_rename', 'o': 'path_open', 'w': 'fd_write', 'W': 'fd_pwrite', 'r': 'fd_read', 'R': 'fd_pread', 's': 'fd_seek', 't': 'fd_tell',
           'f': 'fd_filestat_get', 'c': 'fd_close'}
 
 
@@ -56,11 +56,18 @@ def alphabet(info, depth):
                         if fl == 16 and (o not in (0, 1) or r != 3):
                             continue        # the sync flag with plain and creating opens, read-write        # DIRECTORY combined with TRUNC / CREAT: write access, no append (keeps level 3 affordable)
                         ops.append('o,%s,%d,%d,%d,%d' % (n, o, fl, r, ns))
+    # names go away or move while descriptors are open on the files (fd_filestat_get, reads and writes keep addressing the open file)
+    if info:
+        for ns in nss:
+            ops += ['u,f,%d' % ns, 'u,g,%d' % ns, 'n,f,g,%d' % ns, 'n,g,f,%d' % ns]
     for fd, name in info:
         for ns in nss:
             for sh in SHAPES:
                 ops.append('w,%d,%d,%d' % (fd, sh, ns))
-                ops.append('r,%d,%d,%d' % (fd, sh, ns))
+                if sh != 7:
+                    ops.append('r,%d,%d,%d' % (fd, sh, ns))
+                if sh >= 6:
+                    continue        # the aliasing shapes with fd_write / fd_read only (the positional variants share the code)
                 if name != 'sub':     # positional I/O on directory handles: outside the statement (error precedence of an emulation)
                     for off in OFFSETS:
                         ops.append('W,%d,%d,%d,%d' % (fd, sh, off, ns))
@@ -83,6 +90,10 @@ def describe_op(op):
     f = op.split(',')
     ns = NSNAME[int(f[-1])]
     k = f[0]
+    if k == 'u':
+        return '%s.path_unlink_file(3,"%s")' % (ns, f[1])
+    if k == 'n':
+        return '%s.path_rename(3,"%s",3,"%s")' % (ns, f[1], f[2])
     if k == 'o':
         return '%s.path_open(3,"%s",oflags=%s,fdflags=%s,rights=%s)' % (ns, f[1], OFLAGS[int(f[2])], FDFLAGS[int(f[3])], RIGHTS[int(f[4])])
     if k in 'wr':
@@ -109,6 +120,8 @@ def op_class(op):
         return 'oflags=%s,fdflags=%s,rights=%s' % (OFLAGS[int(f[2])], FDFLAGS[int(f[3])], RIGHTS[int(f[4])])
     if k == 'f':
         return NSNAME[int(f[-1])]
+    if k in 'un':
+        return '-'
     return 'iovs=%s' % SHAPES[int(f[2])] if k in 'wr' else '-'
 
 
